@@ -184,3 +184,39 @@ def sensortran_write(outdir, records, order):
                                np.asarray(r["ast"], dtype="<i4").tobytes())
         (Path(outdir) / (r["name"] + "_BinaryTemp.dat")).write_bytes(temp)
         (Path(outdir) / (r["name"] + "_BinaryRawDTS.dat")).write_bytes(raw)
+
+
+# --------------------------------------------------------------------------------------------------- AP Sensing xml + .tra
+APS2 = "ap_sensing_2/CH1_SE"
+
+
+def _tra_head():
+    f = sorted((DATA / APS2).glob("*.tra"))[0]
+    lines = f.read_text().splitlines()
+    k = lines.index("[Trace.1]")
+    return lines[: k + 1]
+
+
+def apsensing_tra_write(outdir, records, order, tra_for=None, tra_stamp_shift=None):
+    """records: dict(ts, table (npts, 4: LAF, TEMP, ST, AST), logratio[npts], loss[npts], ref[4]).  An xml and a .tra file per record
+    (same 14-digit stamp in both names); tra_for: indices that get a .tra (default all); tra_stamp_shift: {index: seconds} puts a
+    different time INSIDE the .tra than in its name"""
+    tp = template(APS2)
+    head = _tra_head()
+    for k in order:
+        r = records[k]
+        stamp = r["ts"].strftime("%Y%m%d%H%M%S")
+        text = tp.render(r["table"], {"creationDate": r["ts"].strftime("%Y-%m-%dT%H:%M:%S")})
+        (Path(outdir) / f"CH1_SE_AP Sensing_N4386B_1_{stamp}.xml").write_bytes((b"\xef\xbb\xbf" if tp.bom else b"") + text.encode("utf-8"))
+        if tra_for is not None and k not in tra_for:
+            continue
+        t_in = r["ts"] + dt.timedelta(seconds=(tra_stamp_shift or {}).get(k, 0))
+        lines = list(head)
+        for i, row in enumerate(r["table"]):
+            lines.append(f"{i};{fmt(row[0])};{fmt(row[1])};{fmt(r['logratio'][i])};{fmt(r['loss'][i])}")
+        for j, v in enumerate(r["ref"], start=1):
+            lines.append(f"Ref.Temperature.Sensor.{j};{fmt(v)}")
+        lines += [f"Date.Year;{t_in.year}", f"Date.Month;{t_in.month}", f"Date.Day;{t_in.day}", f"Time.Hour;{t_in.hour}",
+                  f"Time.Minute;{t_in.minute}", f"Time.Second;{t_in.second}"]
+        (Path(outdir) / f"C1_SE_CH1_0_5_m{stamp}.tra").write_text("\n".join(lines) + "\n")
+    return tp.ncol
